@@ -29,6 +29,38 @@ def gen(seed, tier):
         b = H.gen_tree(rng, d + 1, n, pool, dflt)
         kind = "owned" if (d >= 1 and rng.random() < 0.5) else "free"
         yield {"prop": PROP, "op": op, "d": d, "dflt": dflt, "a": a, "b": b, "kind": kind}
+    # uncompressed-format operands: every coordinate of the shape is presented
+    small = list(H.all_leaf_fibers(3, [0, 1]))
+    k = 0
+    for op in OPS:
+        for a in small:
+            for b in small:
+                for fa, fb in (("U", "C"), ("C", "U"), ("U", "U")):
+                    k += 1
+                    if tier == "quick" and k % 3:
+                        continue
+                    yield {"prop": PROP, "op": op, "d": 0, "dflt": 0, "a": a, "b": b, "kind": "fmt",
+                           "fa": fa, "fb": fb, "sa": 3, "sb": 3}
+    # aggregated co-iterators: n-ary two-finger intersection, n-ary union, leader-follower
+    trip = list(H.all_leaf_fibers(3, [0, 1]))
+    k = 0
+    for a in trip:
+        for b in trip:
+            for c in trip:
+                k += 1
+                if tier == "quick" and k % 5:
+                    continue
+                for op in ("nand", "nor", "lf"):
+                    yield {"prop": PROP, "op": op, "d": 0, "dflt": 0, "ops": [a, b, c], "kind": "free"}
+    for i in range(nrand // 2):
+        kk = rng.choice([2, 3, 4])
+        d = rng.choice([0, 0, 1])
+        dflt = rng.choice([0, 0, 7])
+        n = rng.choice([3, 5, 8])
+        ops = [H.gen_tree(rng, d + 1, n, (1, 2, -3, 7, 0), dflt) for _ in range(kk)]
+        yield {"prop": PROP, "op": rng.choice(["nand", "nor", "lf"]), "d": d, "dflt": dflt, "ops": ops,
+               "kind": "owned" if d >= 1 else rng.choice(["free", "owned"]),
+               "stale": rng.random() < 0.3}
 
 
 def _ref(fiber, p, dflt):
@@ -48,12 +80,59 @@ def _ranks(t):
     return [[id(f) for f in r.getFibers()] for r in t.ranks]
 
 
+def _run_nary(case):
+    ft = H.ft()
+    d, dflt, op = case["d"], case["dflt"], case["op"]
+    fibers, tensors = [], []
+    for t in case["ops"]:
+        f = H.build_fiber(t, d + 1, dflt)
+        if case["kind"] == "owned":
+            tt = ft.Tensor.fromFiber(rank_ids=[f"R{d - i}" for i in range(d + 1)], fiber=f, default=dflt)
+            tensors.append(tt)
+            f = tt.getRoot()
+        fibers.append(f)
+    if case.get("stale"):
+        # leave saved positions behind, as an earlier unrelated search would
+        for f in fibers:
+            if len(f.coords) > 1:
+                f.getPayload(f.coords[-1], start_pos=0)
+    before = ([H.snapshot(f) for f in fibers], [_ranks(t) for t in tensors])
+    side = {}
+    get = ft.Payload.get      # the payload tuple may or may not arrive boxed
+    try:
+        if op == "nand":
+            rows = [[c, [_ref(f, p, dflt) for f, p in zip(fibers, get(ps))]] for c, ps in ft.Fiber.intersection(*fibers)]
+        elif op == "lf":
+            rows = [[c, _ref(fibers[0], get(ps)[0], dflt), [_ref(f, p, dflt) for f, p in zip(fibers[1:], get(ps)[1:])]]
+                    for c, ps in ft.Fiber.intersection(*fibers, style="leader-follower")]
+        else:
+            rows = [[c, get(ps)[0], [_ref(f, p, dflt) for f, p in zip(fibers, get(ps)[1:])]] for c, ps in ft.Fiber.union(*fibers)]
+        case["impl"] = rows
+    except Exception as e:
+        case["impl"] = []
+        side["no_exception:" + H.err_class(e)] = False
+    after = ([H.snapshot(f) for f in fibers], [_ranks(t) for t in tensors])
+    side["operands_unchanged"] = before[0] == after[0]
+    side["rank_lists_unchanged"] = before[1] == after[1]
+    case["side"] = side
+    return case
+
+
 def run(case):
     ft = H.ft()
+    if "ops" in case:
+        return _run_nary(case)
     d, dflt, op = case["d"], case["dflt"], case["op"]
     fa = H.build_fiber(case["a"], d + 1, dflt)
     fb = H.build_fiber(case["b"], d + 1, dflt)
     tensors = []
+    if case["kind"] == "fmt":
+        ta = ft.Tensor.fromFiber(rank_ids=["K"], fiber=fa, shape=[case["sa"]], default=dflt)
+        tb = ft.Tensor.fromFiber(rank_ids=["K"], fiber=fb, shape=[case["sb"]], default=dflt)
+        ta.setFormat("K", case["fa"])
+        tb.setFormat("K", case["fb"])
+        tensors = [ta, tb]
+        fa, fb = ta.getRoot(), tb.getRoot()
     if case["kind"] == "owned":
         ids = [f"R{d - i}" for i in range(d + 1)]
         ta = ft.Tensor.fromFiber(rank_ids=ids, fiber=fa, default=dflt)
@@ -84,11 +163,33 @@ def run(case):
 
 def nontrivial(case, verdict):
     t = set(verdict.get("tags", []))
+    if "ops" in case:
+        return "nonempty-result" in t or "follower-absent" in t
     return not ({"emptyA", "emptyB"} & t) and bool(t & {"match", "skipA", "skipB", "tailA", "tailB"})
 
 
 def signature(case, verdict, failed):
     """classification of a failing case for known_findings.json"""
+    if "ops" in case:
+        return f"{case['op']}:{'/'.join(sorted(f.split(':')[0] for f in failed))}"
     if "rank_lists_unchanged" in failed and case["op"] in ("or", "xor") and case["kind"] == "owned":
         return f"{case['op']}:rank-list-growth"
     return f"{case['op']}:{'/'.join(sorted(failed))}"
+
+
+def shrink_candidates(case):
+    """drop / shrink operands but keep at least two of them (the aggregated operators need two)"""
+    def tree_shrinks(t):
+        for i in range(len(t)):
+            yield t[:i] + t[i + 1:]
+    if "ops" in case:
+        if len(case["ops"]) > 2:
+            for i in range(len(case["ops"])):
+                c = dict(case); c["ops"] = case["ops"][:i] + case["ops"][i + 1:]; yield c
+        for i, t in enumerate(case["ops"]):
+            for t2 in tree_shrinks(t):
+                c = dict(case); c["ops"] = case["ops"][:i] + [t2] + case["ops"][i + 1:]; yield c
+        return
+    for key in ("a", "b"):
+        for t2 in tree_shrinks(case[key]):
+            c = dict(case); c[key] = t2; yield c
